@@ -100,6 +100,7 @@ class FakeSocket:
         self.connected = kind == 'in'
         self.connect_result = None  # None pending | True | OSError
         self.send_error = None  # OSError raised by the next send
+        self.cut_after_tx = None  # once this many writes were recorded, every further write fails (connection lost)
         self._recv_waiter = None  # (future, buffer)
         self._connect_waiter = None
         self.index = len(world.sockets)
@@ -282,6 +283,8 @@ class VLoop(asyncio.BaseEventLoop):
         if sock.send_error is not None:
             e, sock.send_error = sock.send_error, None
             raise e
+        if sock.cut_after_tx is not None and len(sock.tx) >= sock.cut_after_tx:
+            raise OSError(errno.EPIPE, 'connection lost')
         sock._record_tx(bytes(data))
 
     async def sock_connect(self, sock, address) -> None:
